@@ -703,6 +703,25 @@ func ruleGuardNil(c *Ctx, r *R) {
 					r.ok("reviewed:"+key, c.Pos(instrPos(call)), why)
 					continue
 				}
+				// the code moved into a helper: the receiver is a parameter, and every caller is a function whose own
+				// calls of this accessor are reviewed (the reviewed fact is about the values that function handles)
+				if p, isParam := g.src.(*ssa.Parameter); isParam && g.src != nil {
+					var whys []string
+					if c.argAtAllCallSites(p, func(_ ssa.Value, site ssa.CallInstruction) bool {
+						owner := site.Parent()
+						for owner.Parent() != nil {
+							owner = owner.Parent()
+						}
+						why, ok := guardNilReviewed[fmt.Sprintf("%s:%s", ssaFuncName(owner), callee.Name())]
+						if ok {
+							whys = append(whys, why)
+						}
+						return ok
+					}, 0) && len(whys) > 0 {
+						r.ok("reviewed-caller:"+key, c.Pos(instrPos(call)), "the receiver is a parameter bound at every call site by a function for which this holds: "+whys[0])
+						continue
+					}
+				}
 				r.bad(key, c.Pos(instrPos(call)), fmt.Sprintf("%s can return nil (e.g. when the value is not an object); its result is dereferenced at %s (%s) with no dominating nil/kind test: a script passing the other kind of value crashes the host with a nil dereference", ssaFuncName(callee), c.Pos(instrPos(bad)), describeInstr(bad)))
 			}
 		}
@@ -1082,6 +1101,11 @@ func justifyAssert(c *Ctx, cf *classFacts, fn *ssa.Function, ta *ssa.TypeAssert)
 				return "slot function of " + tbl + ": every constructor that installs this table stores a " + T + " payload (CLASS-PAYLOAD)"
 			}
 		}
+		// (f) the object is captured by (or passed to the function that creates) this closure, and whoever made the object
+		// stored a T into its payload on every path before that
+		if why := payloadStoredByMaker(c, fn, ld.X.(*ssa.FieldAddr).X, ta, T); why != "" {
+			return why
+		}
 		// closures/helpers called only from slot functions are not handled: reviewed table
 		// class-name test: obj.class == C dominating, and all setters of class C store T
 		fa := ld.X.(*ssa.FieldAddr)
@@ -1213,8 +1237,99 @@ var guardAssertReviewed = map[string]string{
 	"objectLength:Value.value.(int)":                                                     "class String / GoArray / GoSlice: length is produced by intValue(...) (LENGTH-repr)",
 	"arrayDefineOwnProperty:Value.value.(uint32)":                                        "slot function of classArray: length is always stored through uint32Value (LENGTH-repr)",
 	"(Value).export:Value.value.(uint32)":                                                "under obj.class == Array: length is always stored through uint32Value (LENGTH-repr)",
-	"(*runtime).newErrorObject$1:object.value.(ottoError)":                               "obj.value was assigned an ottoError earlier in the enclosing function and object.value is not written anywhere else for error objects",
-	"(*runtime).newErrorObjectError$1:object.value.(ottoError)":                          "obj.value was assigned the ottoError parameter earlier in the enclosing function",
 	"(Value).evaluateBreakContinue:Value.value.(result)":                                 "every caller tests value.kind == valueResult first; a result Value always carries a result payload (REPR-value)",
 	"(Value).evaluateBreak:Value.value.(result)":                                         "every caller tests value.kind == valueResult first (REPR-value)",
+}
+
+// payloadStoredByMaker: ta asserts <obj>.value.(T) inside a closure, where obj is a captured variable. The variable is
+// assigned once; what it is assigned is either an object on which the enclosing function stored a T payload on every
+// path before creating the closure, or a parameter of the enclosing function for which every call site did so before
+// the call. (Later stores to the payload of an object are the business of CLASS-PAYLOAD: constructors fix the type.)
+func payloadStoredByMaker(c *Ctx, fn *ssa.Function, obj ssa.Value, ta *ssa.TypeAssert, T string) string {
+	ld, ok := obj.(*ssa.UnOp)
+	if !ok || ld.Op != token.MUL {
+		return ""
+	}
+	fv, ok := ld.X.(*ssa.FreeVar)
+	if !ok || fn.Parent() == nil {
+		return ""
+	}
+	cell := freeVarBinding(fv)
+	if cell == nil {
+		return ""
+	}
+	v := soleStoreAny(cell)
+	if v == nil {
+		return ""
+	}
+	parent := fn.Parent()
+	var mk ssa.Instruction
+	for _, b := range parent.Blocks {
+		for _, ins := range b.Instrs {
+			if mc, ok := ins.(*ssa.MakeClosure); ok && mc.Fn == ssa.Value(fn) {
+				mk = ins
+			}
+		}
+	}
+	if mk == nil {
+		return ""
+	}
+	if storedPayloadBefore(parent, v, cell, mk, T) {
+		return "the captured object had a " + T + " stored into its payload on every path of " + ssaFuncName(parent) + " before this closure was created"
+	}
+	if p, ok := v.(*ssa.Parameter); ok {
+		n := 0
+		if c.argAtAllCallSites(p, func(arg ssa.Value, site ssa.CallInstruction) bool {
+			n++
+			var acell *ssa.Alloc
+			if l, ok := arg.(*ssa.UnOp); ok && l.Op == token.MUL {
+				acell, _ = l.X.(*ssa.Alloc)
+			}
+			return storedPayloadBefore(site.Parent(), arg, acell, site, T)
+		}, 0) && n > 0 {
+			return fmt.Sprintf("the captured object is parameter %s of %s, and each of its %d call sites stored a %s into the payload of the argument on every path before the call", p.Name(), ssaFuncName(parent), n, T)
+		}
+	}
+	return ""
+}
+
+// storedPayloadBefore: every path of fn from its entry to `at` executes a store of a T into <obj>.value, and no store
+// into <obj>.value in fn is of another type. obj is the object value itself or (cell != nil) what a once-assigned
+// variable holds.
+func storedPayloadBefore(fn *ssa.Function, obj ssa.Value, cell *ssa.Alloc, at ssa.Instruction, T string) bool {
+	if cell != nil && soleStoreAny(cell) == nil {
+		return false
+	}
+	same := func(base ssa.Value) bool {
+		if base == obj {
+			return true
+		}
+		if cell != nil {
+			if l, ok := base.(*ssa.UnOp); ok && l.Op == token.MUL && l.X == ssa.Value(cell) {
+				return true
+			}
+			if soleStoreAny(cell) == base {
+				return true
+			}
+		}
+		return false
+	}
+	good := map[ssa.Instruction]bool{}
+	for _, b := range fn.Blocks {
+		for _, ins := range b.Instrs {
+			st, ok := ins.(*ssa.Store)
+			if !ok || !isFieldAddr(st.Addr, "object", "value") || !same(st.Addr.(*ssa.FieldAddr).X) {
+				continue
+			}
+			mi, ok := st.Val.(*ssa.MakeInterface)
+			if !ok || typeStr(mi.X.Type()) != T {
+				return false
+			}
+			good[ins] = true
+		}
+	}
+	if len(good) == 0 {
+		return false
+	}
+	return !reachableWithout(fn, at, func(i ssa.Instruction) bool { return good[i] })
 }
